@@ -36,7 +36,8 @@ FAMILY = {
                 extra_gen=["MC_GenClusterRetry.cfg"], gen_split=True),
     "C03": dict(mc="MC_Fault", gen="MC_GenFault", quick=200, thorough=2000, drivers=["secret", "configmap", "memory"],
                 sweep=(6, 60)),
-    "C06": dict(mc="MC_Dry", gen="MC_GenDry", quick=260, thorough=2000, drivers=["secret", "memory", "configmap"], cli=2),
+    "C06": dict(mc="MC_Dry", gen="MC_GenDry", quick=200, thorough=2000, drivers=["secret", "memory", "configmap"], cli=2,
+                enum=["MC_EnumDry.cfg"]),
     "C07": dict(mc="MC_Own", gen="MC_GenOwn", quick=260, thorough=2000, drivers=["secret", "memory", "configmap"]),
     "C09": dict(mc="MC_Conc", gen="MC_GenConc", quick=480, thorough=4000, drivers=["secret", "memory", "configmap"], gen_split=True,
                 extra_mc=["MC_ConcDep.cfg", "MC_ConcLim.cfg"], extra_mc_thorough=["MC_ConcFault.cfg"],
@@ -421,6 +422,15 @@ def run(pid, tier, seed, replay=None):
                                 fam.get("gen_depth", 400), seed + 1000 * gi,
                                 timeout=900 if tier == "quick" else 3600)
         raws += r
+    # operation-level cover: EVERY behaviour of a small menu (all operation sequences up to the bound) is exported
+    # by a breadth-first TLC run and replayed as well
+    enum_n = 0
+    for ecfg in fam.get("enum", []) + (fam.get("enum_thorough", []) if tier == "thorough" else []):
+        r, _ = vlib.generate(d, fam["gen"] + ".tla", ecfg, 0, 0, seed, timeout=1500, exhaustive=True)
+        seen = {json.dumps(x["steps"], sort_keys=True) for x in raws}
+        r = [x for x in r if json.dumps(x["steps"], sort_keys=True) not in seen]
+        enum_n += len(r)
+        raws += r
     if len(raws) < 10:
         raise Inconclusive("scenario generator produced only %d scenarios" % len(raws))
     scs = assign_drivers(raws, fam["drivers"], "s", cli=fam.get("cli", 4))
@@ -545,6 +555,7 @@ def run(pid, tier, seed, replay=None):
         "scenarios_driven_through_the_command_line": sum(1 for s_ in scs if any(st.get("via") == "cli" for st in s_["steps"])),
         "schedules_not_followed_by_the_real_code": sched_div,
         "fault_sweep_scenarios_every_call_position": sweep_n,
+        "scenarios_from_exhaustive_enumeration_of_short_operation_sequences": enum_n,
         "race_detector": race,
         "evaluations": len(scs), "distinct_nontrivial": distinct_end,
         "rule": "scenarios are behaviours of Helm.tla drawn by TLC -simulate (seeded); distinct_nontrivial counts distinct "
